@@ -379,7 +379,7 @@ class Deps:
         owner = self.owner(name)
         if owner is None:
             return None
-        ds = self.defs(owner, name)
+        ds = [(k, n) for k, n in self.defs(owner, name) if not getattr(parent(n), "_inline_init", False)]
         vals = [n for k, n in ds if k == "value"]
         if len(ds) == 1 and len(vals) == 1:
             return vals[0]
